@@ -99,6 +99,12 @@ class Prop:
                     parts.append([gen.tag_block(b'g:%d-%d-%d,s:st' % (j + 1, t, gid)) +
                                   gen.render(gen.payload_bits(rng, 'MessageType1'))[0] for j in range(t)])
                 elif r < 0.92:
+                    if rng.random() < 0.4:
+                        # a sentence behind a tag block that cannot be parsed (no / non-hex / two checksums): with or
+                        # without a TagBlockQueue the sentence itself is delivered
+                        tb = rng.choice([b'\\s:x,c:123\\', b'\\s:y*ZZ\\', b'\\s:z*2A*2A\\', b'\\g:1-2-7\\', b'\\*\\'])
+                        parts.append([tb + gen.render(gen.payload_bits(rng, 'MessageType1'), chan=rng.choice('AB'))[0]])
+                        continue
                     parts.append([rng.choice([b'$GPGGA,123519,4807.038,N,01131.000,E,1,08,0.9,545.4,M,46.9,M,,*47',
                                               b'!AIVDM,1,1,,A,\x00\x01,0*00', b'$PGHP,1,2021,2,30,3,4,5,6,219,1,2,1,6D*00',
                                               b'!short', b'\\s:x*00\\!AIVDM,garbage', b'!AIVDM,1,1,,A,,0*26'])])
@@ -172,7 +178,7 @@ class Prop:
                 ops.append('socket %d %s' % (tbq, ' '.join(stream[a:b].hex() for a, b in zip(pts, pts[1:]))))
                 meta.append((name, lines, tbq, 'socket'))
         outs = ctx.corr(ops, impl.step, 'frontends', nontrivial=lambda l, o: '0a21' in o or '0a5c' in o)
-        ref = {}
+        ref, plain = {}, {}
         oneshot_ops, oneshot_meta = [], []
         for (name, lines, tbq, fe), o in zip(meta, outs):
             ctx.count('frontend:' + fe)
@@ -181,6 +187,12 @@ class Prop:
             if d[2]:
                 ctx.fail('a front-end raised', inp, 'no exception', d[2], {'kind': 'crash', 'frontend': fe})
                 continue
+            if tbq == 1 and (name, 0, fe) in plain and plain[(name, 0, fe)] != d[0]:
+                ctx.fail('attaching a TagBlockQueue changes the messages a front-end delivers', inp,
+                         '%d deliveries as without' % len(plain[(name, 0, fe)]), '%d deliveries' % len(d[0]),
+                         {'kind': 'tbq-changes-deliveries', 'frontend': fe})
+            if tbq == 0:
+                plain[(name, 0, fe)] = d[0]
             if fe == 'iter':
                 ref[(name, tbq)] = d
                 if tbq == 0:
